@@ -713,11 +713,12 @@ func c11Batch(r *fw.Rec, sl c11Slot, ss []string, withLLVM bool) {
 		c11LLVMBisect(r, sl, ss)
 		return
 	}
+	out, _, ok2, err := llvmref.Reading(text)
+	if err != nil || !ok2 {
+		return
+	}
+	c11ReadLLVMSpelling(r, sl, ss, out, fail)
 	if sl.llvmRe != nil {
-		out, _, ok2, err := llvmref.Reading(text)
-		if err != nil || !ok2 {
-			return
-		}
 		names := sl.llvmRe(out)
 		if len(names) != len(ss) {
 			r.Inconclusive("cannot locate the names in LLVM's output for " + sl.name)
@@ -732,6 +733,64 @@ func c11Batch(r *fw.Rec, sl c11Slot, ss []string, withLLVM bool) {
 		}
 	} else {
 		r.TallyN("llvm_accepts", sl.name, len(ss))
+	}
+}
+
+// c11ReadLLVMSpelling feeds LLVM's own printing of the module (its spelling
+// of the same bytes: `\\\\` for a backslash, raw printable characters, its
+// quoting rules) to the library's parser: the bytes read must be the same
+// multiset of strings (LLVM may move definitions, e.g. attributes into groups;
+// a different shape is not judged).
+func c11ReadLLVMSpelling(r *fw.Rec, sl c11Slot, ss []string, llvmText string, fail func(kind, s, what, text string)) {
+	if sl.name == "module-asm" {
+		// LLVM splits module asm at newlines and re-joins it: its printing is not a respelling of the same bytes
+		return
+	}
+	m3, perr, pmsg := parseGuard("c11-llvm", llvmText)
+	if pmsg != "" || perr != nil {
+		r.Tally("llvm_spelling(not judged)", sl.name+":not-accepted-by-the-parser(C01)")
+		return
+	}
+	var got []string
+	if p, _, _ := fw.Guard(func() { got = sl.read(m3) }); p || len(got) != len(ss) {
+		r.Tally("llvm_spelling(not judged)", sl.name+":shape-differs")
+		return
+	}
+	for _, g := range got {
+		if strings.HasPrefix(g, "<*") {
+			// LLVM replaced the constant by another form (an all-zero c"..." becomes zeroinitializer)
+			r.Tally("llvm_spelling(not judged)", sl.name+":constant-normalised-by-llvm")
+			return
+		}
+	}
+	want := map[string]int{}
+	for _, s := range ss {
+		want[s]++
+	}
+	for _, g := range got {
+		want[g]--
+	}
+	bad := 0
+	for _, s := range ss {
+		if want[s] > 0 {
+			// this string was not read back from LLVM's spelling; name what was read instead
+			other := ""
+			for _, g := range got {
+				if want[g] < 0 {
+					other = g
+					break
+				}
+			}
+			fail("llvm-spelling-misread", s, fmt.Sprintf("LLVM's spelling of these bytes is read by the library's parser as other bytes (%q)", other), llvmText)
+			want[s] = 0
+			bad++
+			if bad >= 3 {
+				break
+			}
+		}
+	}
+	if bad == 0 {
+		r.TallyN("llvm_spelling_read_back", sl.name, len(ss))
 	}
 }
 
